@@ -15,6 +15,7 @@ instance : TranscOps Rat where
   abs := fun x => if x < 0 then -x else x
   rpow := fun x _ => x
   pi := 0
+  zetac := id
 
 def showList (o : Option (List Rat)) : String :=
   match o with
